@@ -116,6 +116,8 @@ def run(ctx):
         ctx.cover(model_action_coverage=cov)
         if missing:
             ctx.inconclusive("vacuity: actions never taken in the model run: %s" % missing)
+    if not ctx.quick:
+        ctx.tlc("store/Store.tla", "store/Store_thorough.cfg", workers=8, deadlock=False, timeout=1800)
     cases = _dedupe(r.printed.get("CASE", []))
     ctx.cover(model_crash_points=len(cases), exhaustive=True)
     if len(cases) < 500:
